@@ -65,7 +65,7 @@ pub assume_specification[std::string::String::len](s: &String) -> (n: usize) ens
 pub broadcast axiom fn axiom_str_len_bound(s: &str) ensures #[trigger] s.spec_bytes().len() <= usize::MAX;
 impl<'a> Rope<'a> {
   /// D6: `impl From<&'a String> for Rope<'a>` and `impl From<&'a Cow<'a, str>> for Rope<'a>` (src/rope.rs: `Rope { repr: Repr::Light(value) }`, the
-  /// single-piece rope over that string - same shape as `From<&str>`, which unit rope_core proves), named as inherent functions of the opaque type
+  /// single-piece rope over that string), named as inherent functions of the opaque type; both contracts are PROVED on the real impls by unit rope_build
   #[verifier::external_body]
   pub fn from_string(value: &'a String) -> (r: Self) ensures r.wf(), r.bytes() == encode_utf8(value@) { unimplemented!() }
   #[verifier::external_body]
